@@ -82,12 +82,13 @@ bool run(const Case &c, std::string &msg) {
             XBuf srx(32, 1), stx(32, 2), sp(spk, 3), ss(c.extra, 4), cp(cpk, 5);
             if (crypto_kx_server_session_keys(srx.p, stx.p, sp.p, ss.p, cp.p) != 0) { msg = "crypto_kx_server_session_keys failed"; return false; }
             if (srx.get() != tx.get() || stx.get() != rx.get()) { msg = "kx session keys are not cross-equal (client rx != server tx or client tx != server rx)"; return false; }
-            // NULL rx / NULL tx are accepted and give the same remaining key
-            XBuf only_rx(32, 6), only_tx(32, 7);
-            if (crypto_kx_client_session_keys(only_rx.p, nullptr, a.p, s.p, p.p) != 0 || only_rx.get() != first) { msg = "crypto_kx_client_session_keys(tx=NULL) gave a different rx"; return false; }
-            if (crypto_kx_client_session_keys(nullptr, only_tx.p, a.p, s.p, p.p) != 0 || only_tx.get() != second) { msg = "crypto_kx_client_session_keys(rx=NULL) gave a different tx"; return false; }
-            if (crypto_kx_server_session_keys(only_rx.p, nullptr, sp.p, ss.p, cp.p) != 0 || only_rx.get() != second) { msg = "crypto_kx_server_session_keys(tx=NULL) gave a different rx"; return false; }
-            if (crypto_kx_server_session_keys(nullptr, only_tx.p, sp.p, ss.p, cp.p) != 0 || only_tx.get() != first) { msg = "crypto_kx_server_session_keys(rx=NULL) gave a different tx"; return false; }
+            // rx or tx may be NULL when only one session key is wanted.  The statement does not say which half that single key is, so only
+            // success and cross-equality between the two sides are asserted (client's single rx == server's single tx, and vice versa).
+            XBuf c_rx(32, 6), c_tx(32, 7), s_rx(32, 8), s_tx(32, 9);
+            if (crypto_kx_client_session_keys(c_rx.p, nullptr, a.p, s.p, p.p) != 0 || crypto_kx_client_session_keys(nullptr, c_tx.p, a.p, s.p, p.p) != 0 ||
+                crypto_kx_server_session_keys(s_rx.p, nullptr, sp.p, ss.p, cp.p) != 0 || crypto_kx_server_session_keys(nullptr, s_tx.p, sp.p, ss.p, cp.p) != 0) { msg = "crypto_kx_*_session_keys failed with a NULL rx or tx"; return false; }
+            if (c_rx.get() != s_tx.get() || c_tx.get() != s_rx.get()) { msg = "kx single-key mode (NULL rx/tx): the two sides derived different keys"; return false; }
+            if (c_rx.get() != first && c_rx.get() != second) { msg = "kx single-key mode: key is not part of BLAKE2b-512(shared || client_pk || server_pk)"; return false; }
         }
         return true;
     }
